@@ -312,10 +312,98 @@ fn record_bookkeeping(rng: &mut Rng, out: &mut Out, n: usize) {
     }
     let set_of = |x: &VarSet| x.iter().map(|l| l.value_usize()).collect::<Vec<_>>();
     let q = rng.below(2 * n);
+    let mut uw = s.clone();
+    uw.union_with(&t); // in-place union
     out.emit(json!({"ev": "varset", "sops": ms, "tops": mt, "s": set_of(&s), "t": set_of(&t),
                     "union": set_of(&s.union(&t)), "minus": set_of(&s.minus(&t)), "inter": set_of(&s.intersect_varset(&t)),
                     "diff": s.difference(&t).map(|l| l.value_usize()).collect::<Vec<_>>(),
+                    "union_with": set_of(&uw), "intersect": s.intersect(&t).collect::<Vec<usize>>(),
                     "q": q, "contains": s.contains(VarLabel::new_usize(q)), "len": s.len(), "empty": s.is_empty()}));
+    // equality and hashing of variable sets / partial models are equality of their CONTENTS: objects with the same contents reached
+    // through different constructors (declared sizes on both sides of the 32- and 64-label block boundaries) and different
+    // histories (a high label inserted and removed again) must compare equal and hash alike
+    {
+        use std::hash::{Hash, Hasher};
+        let targets: Vec<Vec<usize>> = (0..2).map(|_| (0..rng.below(4)).map(|_| rng.below(2 * n + 2)).collect()).collect();
+        let mut sets: Vec<VarSet> = vec![];
+        let mut how: Vec<Value> = vec![];
+        for i in 0..6 {
+            let ctor = rng.below(5);
+            let mut x = match ctor {
+                0 => VarSet::new(),
+                1 => VarSet::new_with_num_vars(0),
+                2 => VarSet::new_with_num_vars(10),
+                3 => VarSet::new_with_num_vars(40),
+                _ => VarSet::new_with_num_vars(70),
+            };
+            let mut ops: Vec<i64> = vec![];
+            for _ in 0..rng.below(4) {
+                let v = *rng.pick(&[0usize, 3, 31, 32, 40, 63, 64, 65, 100]);
+                x.insert(VarLabel::new_usize(v));
+                ops.push(v as i64);
+            }
+            // remove everything again, then steer to the target contents
+            for v in x.iter().collect::<Vec<_>>() {
+                x.remove(v);
+            }
+            let t = &targets[i % 2];
+            if rng.chance(1, 4) {
+                // reach the target as a derived set (union / minus results are rebuilt by the library)
+                let mut y = VarSet::new_with_num_vars(*rng.pick(&[0usize, 40, 70]));
+                for v in t {
+                    y.insert(VarLabel::new_usize(*v));
+                }
+                x = match rng.below(3) { 0 => x.union(&y), 1 => y.minus(&x), _ => y.intersect_varset(&y) };
+                ops.push(-1);
+            } else {
+                for v in t {
+                    x.insert(VarLabel::new_usize(*v));
+                }
+            }
+            how.push(json!({"ctor": ctor, "ops": ops}));
+            sets.push(x);
+        }
+        let hash_of = |x: &VarSet| {
+            let mut h = std::collections::hash_map::DefaultHasher::new();
+            x.hash(&mut h);
+            h.finish()
+        };
+        let distinct = sets.iter().collect::<std::collections::HashSet<&VarSet>>().len();
+        out.emit(json!({"ev": "vs_eq", "how": how,
+                        "s": sets.iter().map(|x| x.iter().map(|l| l.value_usize()).collect::<Vec<_>>()).collect::<Vec<_>>(),
+                        "eq": sets.iter().map(|a| sets.iter().map(|b| a == b).collect::<Vec<_>>()).collect::<Vec<_>>(),
+                        "heq": sets.iter().map(|a| sets.iter().map(|b| hash_of(a) == hash_of(b)).collect::<Vec<_>>()).collect::<Vec<_>>(),
+                        "distinct": distinct}));
+        // partial models: same assignments through different declared sizes and set / unset histories
+        let tgt: Vec<Vec<(usize, bool)>> = (0..2).map(|_| (0..rng.below(3)).map(|_| (rng.below(n), rng.coin())).collect()).collect();
+        let mut pms: Vec<PartialModel> = vec![];
+        for i in 0..5 {
+            let mut m = PartialModel::new(*rng.pick(&[n, n + 1, 33, 40, 70]));
+            for _ in 0..rng.below(3) {
+                let v = *rng.pick(&[0usize, 31, 32, 40, 64, 69]);
+                m.set(VarLabel::new_usize(v), rng.coin());
+                m.unset(VarLabel::new_usize(v));
+            }
+            for v in 0..n {
+                m.unset(VarLabel::new_usize(v));
+            }
+            let mut last: std::collections::BTreeMap<usize, bool> = Default::default();
+            for (v, b) in &tgt[i % 2] {
+                last.insert(*v, *b);
+            }
+            for (v, b) in &last {
+                m.set(VarLabel::new_usize(*v), *b);
+            }
+            pms.push(m);
+        }
+        out.emit(json!({"ev": "pm_eq", "n": n,
+                        "m": pms.iter().map(|m| pm_json(m, n)).collect::<Vec<_>>(),
+                        "eq": pms.iter().map(|a| pms.iter().map(|b| a == b).collect::<Vec<_>>()).collect::<Vec<_>>()}));
+        // from_total_model: every variable assigned as listed
+        let bools: Vec<bool> = (0..n).map(|_| rng.coin()).collect();
+        let m = PartialModel::from_total_model(&bools);
+        out.emit(json!({"ev": "pm_total", "in": bools, "m": pm_json(&m, n)}));
+    }
 }
 
 // =================================================================== C14
@@ -401,10 +489,38 @@ pub fn record_orders(args: &Args) {
         }
         // vtree manager tables against the tree shape
         {
-            let n = rng.range(1, 6);
+            // one event in twelve: a DEEP vtree (66..90 leaves on a right- or left-linear spine, possibly ending in a small random
+            // block), where node depths exceed the width of a machine word; the tables are then taken for a sample of the leaves
+            // (the deepest ones included) closed under lca
+            let deep = rng.chance(1, 12);
+            let n = if deep { rng.range(66, 90) } else { rng.range(1, 6) };
             let mut labels = rng.perm(n + 2);
             labels.truncate(n); // labels need not be dense
-            let t = rand_vtree(&mut rng, &labels);
+            let t = if deep {
+                let vl: Vec<VarLabel> = labels.iter().map(|v| VarLabel::new_usize(*v)).collect();
+                let k = rng.below(5);
+                let block = rand_vtree(&mut rng, &labels[n - 1 - k..]);
+                let mut t = block;
+                let left = rng.coin();
+                for v in vl[..n - 1 - k].iter().rev() {
+                    let leaf = VTree::new_leaf(*v);
+                    t = if left { VTree::new_node(Box::new(t), Box::new(leaf)) } else { VTree::new_node(Box::new(leaf), Box::new(t)) };
+                }
+                t
+            } else {
+                rand_vtree(&mut rng, &labels)
+            };
+            let sample: Vec<usize> = if deep {
+                let mut s: Vec<usize> = (0..5).map(|_| labels[rng.below(n)]).collect();
+                s.extend_from_slice(&labels[n - 3..]);
+                s.push(labels[0]);
+                s.sort();
+                s.dedup();
+                s
+            } else {
+                labels.clone()
+            };
+            let labels = sample;
             emit_guarded(&mut out, json!({"ev": "vtman", "tree": vtree_json(&t)}), |e| {
                 let m = VTreeManager::new(t.clone());
                 // indices are only constructible through var_index / lca; enumerate them by closure
